@@ -81,20 +81,20 @@ type reflectEntry struct {
 }
 
 var reflectTypes = map[string]reflectEntry{
-	"time.Time":        {"named", reflect.TypeOf(time.Time{}), []node{{Path: "time", Name: "Time"}}},
-	"*bytes.Buffer":    {"ptr", reflect.TypeOf(&bytes.Buffer{}), []node{{Path: "bytes", Name: "Buffer"}}},
-	"[]time.Duration":  {"slice", reflect.TypeOf([]time.Duration{}), []node{{Path: "time", Name: "Duration"}}},
-	"[3]net.IP":        {"array", reflect.TypeOf([3]net.IP{}), []node{{Path: "net", Name: "IP"}}},
-	"chan os.Signal":   {"chan", reflect.TypeOf(make(chan os.Signal)), []node{{Path: "os", Name: "Signal"}}},
-	"map[Month]Int":    {"map", reflect.TypeOf(map[time.Month]big.Int{}), []node{{Path: "time", Name: "Month"}, {Path: "math/big", Name: "Int"}}},
+	"time.Time":       {"named", reflect.TypeOf(time.Time{}), []node{{Path: "time", Name: "Time"}}},
+	"*bytes.Buffer":   {"ptr", reflect.TypeOf(&bytes.Buffer{}), []node{{Path: "bytes", Name: "Buffer"}}},
+	"[]time.Duration": {"slice", reflect.TypeOf([]time.Duration{}), []node{{Path: "time", Name: "Duration"}}},
+	"[3]net.IP":       {"array", reflect.TypeOf([3]net.IP{}), []node{{Path: "net", Name: "IP"}}},
+	"chan os.Signal":  {"chan", reflect.TypeOf(make(chan os.Signal)), []node{{Path: "os", Name: "Signal"}}},
+	"map[Month]Int":   {"map", reflect.TypeOf(map[time.Month]big.Int{}), []node{{Path: "time", Name: "Month"}, {Path: "math/big", Name: "Int"}}},
 	"struct{Rand;URL}": {"struct", reflect.TypeOf(struct {
 		A mathrand.Rand
 		B *url.URL
 	}{}), []node{{Path: "math/rand", Name: "Rand"}, {Path: "net/url", Name: "URL"}}},
 	"map[Block]TypeRef": {"map", reflect.TypeOf(map[snippet.Block]gengotypes.TypeRef{}), []node{
 		{Path: "github.com/octohelm/gengo/pkg/gengo/snippet", Name: "Block"}, {Path: "github.com/octohelm/gengo/pkg/types", Name: "TypeRef"}}},
-	"[]cryptorand":     {"slice", reflect.TypeOf([]randv2.PCG{}), []node{{Path: "math/rand/v2", Name: "PCG"}}},
-	"*namer.Names":     {"ptr", reflect.TypeOf(&namer.Names{}), []node{{Path: "github.com/octohelm/gengo/pkg/namer", Name: "Names"}}},
+	"[]randv2.PCG": {"slice", reflect.TypeOf([]randv2.PCG{}), []node{{Path: "math/rand/v2", Name: "PCG"}}},
+	"*namer.Names": {"ptr", reflect.TypeOf(&namer.Names{}), []node{{Path: "github.com/octohelm/gengo/pkg/namer", Name: "Names"}}},
 }
 
 func reflectKeys() []string {
@@ -951,6 +951,20 @@ func (prop) Shrink(raw json.RawMessage) []json.RawMessage {
 				c := clone()
 				c.Ops[i].Args, c.Ops[i].TParams = nil, nil
 				add(c)
+				for j := range o.Args { // one argument less
+					c = clone()
+					c.Ops[i].Args = append(c.Ops[i].Args[:j], c.Ops[i].Args[j+1:]...)
+					if len(c.Ops[i].Args) > 0 {
+						add(c)
+					}
+				}
+				for j, a := range o.Args { // nested arguments flattened away
+					if len(a.Args) > 0 {
+						c = clone()
+						c.Ops[i].Args[j].Args = nil
+						add(c)
+					}
+				}
 				for _, a := range o.Args {
 					if a.Path != "" {
 						c = clone()
